@@ -240,6 +240,16 @@ def fam_capacity(cfg, tier, rng):
     for b in big:
         if cfg["sz"] == 0 or b * cfg["sz"] > 2**63 - 1 - (cfg["al"] - 1):
             out.append(["withcap 0 %s %d" % (cfg["be"], b), "push e 0 w", "dropvec 0"])
+    # the growth policy at larger scales (seeded change C10-m10 stopped doubling above 1 MiB): one more element than
+    # a storage of B bytes holds is asked for - through reserve (amortised: doubles on the heap), reserve_exact, and a
+    # push into the full storage after the typed view filled it
+    if cfg["sz"] > 0:
+        scales = [2**14, 2**17, 2**20, 3 * 2**19, 2**21] if tier == "quick" else [2**14, 2**17, 2**20, 3 * 2**19, 2**21, 2**22, 2**23]
+        for B in scales:
+            cap0 = (B + cfg["sz"] - 1) // cfg["sz"]
+            for call in ("reserve", "reserve_exact", "treserve"):
+                out.append(["withcap 0 %s %d" % (cfg["be"], cap0), "%s 0 %d" % (call, cap0 + 1), "push e 0 w", "shrink_to 0 %d" % (cap0 // 2),
+                            "reserve 0 %d" % (cap0 // 2 + 1), "dropvec 0"])
     # push runs: growth policy / amortisation
     runs = [1, 2, 3, 5, 9, 17, 33, 65] if tier == "quick" else [1, 2, 3, 5, 9, 17, 33, 65, 129, 257, 513]
     for r in runs:
@@ -850,7 +860,32 @@ def fam_placement(cfg, tier, rng):
         return []
     return [["placement"]]
 
+def fam_handleswap(cfg, tier, rng):
+    """C01 (the "mutated first" consumption mode): a removal handle is swapped with an element of ANOTHER vector - handle
+    on the left and on the right of `swap` - before it is dropped; both vectors are read back afterwards.  (Seeded
+    change C01-m10: the erased handle reports size 0, so `handle.swap(..)` silently does nothing.)"""
+    L = 3 if tier == "quick" else 4
+    out = []
+    other_len = max_len(cfg, 2)
+    for n in range(1, max_len(cfg, L) + 1):
+        pre = prefix(cfg, [n, other_len])
+        post = ["iter ref 0 " + "F" * (n + 1), "iter ref 1 " + "F" * (other_len + 1), "dropvec 0", "dropvec 1"]
+        for i in range(0, n):
+            for j in range(0, other_len):
+                for pr in (1, 2):
+                    out.append(pre + ["swap %d 0 %d 1 %d" % (pr, i, j)] + post)
+    return out
+
+def fam_stackcap(cfg, tier, rng):
+    """C11: construction and reported capacity of the fixed backends for EVERY element layout, over-aligned ones
+    included (no element is ever touched, so the known alignment defect D7 of the inline buffers does not matter):
+    capacity = SIZE / size resp. N, construction panics iff N elements do not fit.  (Seeded change C11-m10: an
+    over-aligned storage wrapper that reports capacity 0 above its own alignment.)"""
+    return [["new 0 %s" % cfg["be"], "dropvec 0"], ["new 0 %s" % cfg["be"], "clone_empty 0 1", "dropvec 1", "dropvec 0"]]
+
 FAMILIES = {
+    "stackcap": fam_stackcap,
+    "handleswap": fam_handleswap,
     "types": fam_types,
     "handles": fam_handles,
     "parts": fam_parts,
